@@ -76,8 +76,15 @@ func compareWithRef(c *run.Ctx, b []byte, family string) bool {
 	}
 	res := ref.Parse(b)
 	if !res.Meta.MIDsIncreasing() {
-		// Order and repetition of metadata chunks is a declared don't-care.
+		// Order and repetition of metadata chunks is a declared don't-care: what
+		// such a section amounts to is not judged. A chunk that is invalid in
+		// itself makes the stream invalid whatever its neighbours are, so when the
+		// reference stops inside the metadata the decoder has to refuse as well.
 		c.Count("dontcare_mid_order", 1)
+		if res.Err != nil && res.Err.Stage < ref.StageInstr && err == nil {
+			c.Violate("accepts-malformed", map[string]interface{}{"family": family, "input": hx(b), "what": "a metadata chunk is invalid in itself (identifiers repeat or are out of order, which is not judged)", "reference_error": res.Err.Msg})
+			return false
+		}
 		return true
 	}
 	detail := func(what string, i int) interface{} {
